@@ -53,6 +53,28 @@ Fixpoint dec_fields_with (f : ty -> json -> res val) (ns : list string) (kv : li
             (fun v => rbind (dec_fields_with f ns kv fr) (fun vs => Ok (v :: vs)))
   end.
 
+Section UnmarshalExt.
+Variables (vt : json -> res string) (add1 add2 : osmv -> json -> res osmv).
+Hypothesis Hadd : forall o j, add1 o j = add2 o j.
+
+Lemma add_elements_ext : forall l o, add_elements add1 o l = add_elements add2 o l.
+Proof.
+  induction l as [|x r IH]; intros o; [reflexivity|].
+  cbn [add_elements]. destruct x; try reflexivity. rewrite Hadd.
+  destruct (add2 o j); cbn [rbind]; try reflexivity. apply IH.
+Qed.
+
+Lemma unmarshal_with_ext : forall o0 doc,
+  unmarshal_with vt add1 o0 doc = unmarshal_with vt add2 o0 doc.
+Proof.
+  intros o0 doc. unfold unmarshal_with.
+  destruct (dec (TStruct f_OSM_UnmarshalJSON) doc) as [v| |]; cbn [rbind]; try reflexivity.
+  repeat (match goal with |- context [match ?x with _ => _ end] => destruct x end; try reflexivity).
+  all: match goal with |- context [vt ?j] => destruct (vt j); cbn [rbind]; try reflexivity end.
+  all: apply add_elements_ext.
+Qed.
+End UnmarshalExt.
+
 Section CodecGeneric.
 Variable bytes : Type.
 Variable sem : bytes -> option json.
@@ -310,7 +332,7 @@ Lemma add_element_c_ok : forall o j, add_element_c o j = add_element o j.
 Proof.
   intros o j. unfold add_element_c, add_element, find_type_c.
   destruct Hc as [_ [C2 [C3 _]]]. rewrite (C3 _ _ (C2 j)).
-  destruct (find_type j) as [t| |]; try reflexivity. cbn [rbind].
+  destruct (find_type j) as [t| |]; cbn [rbind]; [|reflexivity|reflexivity].
   rewrite !(dec_c_ok _ c j Hc). reflexivity.
 Qed.
 
@@ -325,16 +347,7 @@ Theorem osm_unmarshal_c_ok : forall data doc, sem data = Some doc ->
 Proof.
   intros data doc H. unfold osm_unmarshal_c, osm_unmarshal.
   destruct Hc as [_ [_ [C3 _]]]. rewrite (C3 _ _ H).
-  unfold unmarshal_with. destruct (dec (TStruct f_OSM_UnmarshalJSON) doc) as [v| |]; try reflexivity.
-  cbn [rbind]. destruct v; try reflexivity. repeat (destruct l as [|? l]; try reflexivity).
-  destruct v; try reflexivity. destruct v0; try reflexivity. destruct v1; try reflexivity.
-  destruct v2; try reflexivity. destruct v3; try reflexivity. destruct v4; try reflexivity.
-  destruct (version_text j); try reflexivity. cbn [rbind].
-  generalize (mkOsm a s0 s1 s2 s3 (o_bounds empty_osm) (o_nodes empty_osm) (o_ways empty_osm)
-                (o_relations empty_osm) (o_changesets empty_osm) (o_notes empty_osm) (o_users empty_osm)).
-  induction l0 as [|x r IH]; intros o0; [reflexivity|].
-  cbn [add_elements]. destruct x; try reflexivity. rewrite add_element_c_ok.
-  destruct (add_element o0 j0); try reflexivity. cbn [rbind]. apply IH.
+  apply unmarshal_with_ext. exact add_element_c_ok.
 Qed.
 
 (* end to end, every call through its codec: a value written under configuration c and read
